@@ -51,13 +51,11 @@ theorem safe_bindObjectProp {n : Nat} (ih : SafeAll n) (σ : State) (sc : List A
     (b : Addr) (pname : List Char) (ploc : Loc) (decl : Bool) (hw : WF σ) (hs : ScOK σ sc) (hb : σ.tagAt b = some .obj) :
     Safe Triv σ (bindObjectProp (n + 1) σ sc names lhs b pname ploc decl) := by
   unfold bindObjectProp
+  obtain ⟨m, hm⟩ := getObj_of_tag hb
+  rw [hm]; dsimp only []
   split
-  · exact Safe.ok_same hw trivial
-  · obtain ⟨m, hm⟩ := getObj_of_tag hb
-    rw [hm]; dsimp only []
-    split
-    · exact Safe.errAt
-    · exact ih.bindNext _ _ _ _ _ _ _ hw hs (objGet_ok (hw.obj hm) (by assumption))
+  · exact Safe.errAt
+  · exact ih.bindNext _ _ _ _ _ _ _ hw hs (objGet_ok (hw.obj hm) (by assumption))
 
 theorem safe_bindObject {n : Nat} (ih : SafeAll n) (σ : State) (sc : List Addr) (names : List (List Char))
     (props : List PropItem) (b : Addr) (decl : Bool) (i total : Nat) (remaining : List (List Char)) (hw : WF σ)
@@ -86,8 +84,10 @@ theorem safe_bindObject {n : Nat} (ih : SafeAll n) (σ : State) (sc : List Addr)
             apply Safe.bind (bindNextName_safe n _ _ _ _ _ hw1 (hs.mono he1) (SValOK.plain (v := .obj ra) ht1))
             intro names' σ2 hw2 he2 _
             exact ih.bindObject _ _ _ _ _ _ _ _ _ hw2 (hs.mono (he1.trans he2)) (tag_mono hb (he1.trans he2))
-        · apply Safe.bind (ih.bindObjectProp _ _ _ _ _ _ _ _ hw hs hb); intro names' σ1 hw1 he1 _
-          exact ih.bindObject _ _ _ _ _ _ _ _ _ hw1 (hs.mono he1) (tag_mono hb he1)
+        · split
+          · exact ih.bindObject _ _ _ _ _ _ _ _ _ hw hs hb
+          · apply Safe.bind (ih.bindObjectProp _ _ _ _ _ _ _ _ hw hs hb); intro names' σ1 hw1 he1 _
+            exact ih.bindObject _ _ _ _ _ _ _ _ _ hw1 (hs.mono he1) (tag_mono hb he1)
       · exact Safe.errAt
     | Pair nameE newLhs =>
       dsimp only []
